@@ -5,7 +5,7 @@ From Coq Require Import NArith List Bool.
 Import ListNotations.
 From Coq Require Import ZArith.
 From CXV Require Import Gen.TokTy Gen.ParserTables Parse.Balanced Gen.Blocks Parse.BlocksSM.
-From CXV Require Import Base.Regex Base.Cost Gen.LexRules Lex.PlyLoop Gen.StreamTables Stream.TokBuf Fmt.TokFmt PP.Filters Misc.ReprModel Gen.Schema Parse.Fold Parse.Declarator Parse.DeclSpec Parse.EnumList Parse.BaseClause Parse.NsHeader Parse.Specs Parse.VarStmt Parse.FnTail Parse.Init Parse.Members Parse.MethodTail Parse.Template Parse.PQName Parse.Using Parse.EnumDecl Parse.ClassEnum Parse.TemplateArg Parse.CtorDtor Parse.ParamsX Parse.DeclStmt Parse.TemplateStmt.
+From CXV Require Import Base.Regex Base.Cost Gen.LexRules Lex.PlyLoop Gen.StreamTables Stream.TokBuf Fmt.TokFmt PP.Filters Misc.ReprModel Gen.Schema Parse.Fold Parse.Declarator Parse.DeclSpec Parse.EnumList Parse.BaseClause Parse.NsHeader Parse.Specs Parse.VarStmt Parse.FnTail Parse.Init Parse.Members Parse.MethodTail Parse.Template Parse.PQName Parse.Using Parse.EnumDecl Parse.ClassEnum Parse.TemplateArg Parse.CtorDtor Parse.ParamsX Parse.DeclStmt Parse.TemplateStmt Parse.MemberStmt.
 From CXV Require Parse.Requires.
 Open Scope N_scope.
 
@@ -765,8 +765,36 @@ Definition run_requires (args : list N) : list N :=
   | DErr e => [1; e]
   end.
 
+(* 108: a member declaration statement in a class body: declarator budget, class-name id, '~'+class-name id, then tokens.
+   Output: 0, rest length, count, nine flags, then per entry
+     0 name (0 | n+1) <type length> <type> bits (0 | 1 k) value (0 | 1 len tokens)                      -- field
+     1 name ctor dtor has-return-type <type length> <function type (return type void when there is none)>
+       const volatile override final ref throw noexcept pure deleted default body                       -- method *)
+Definition enc_mentry (e : mentry) : list N :=
+  match e with
+  | MField nm t bits iv =>
+      let x := enc_ty t in
+      0 :: (match nm with Some n => n + 1 | None => 0 end) :: nlen x :: x ++ (match bits with Some k => [1; k] | None => [0] end) ++ enc_opt_tks iv
+  | MMethod nm rt ps va ctor dtor q =>
+      let x := enc_ty (TFn (match rt with Some t => t | None => TBase 0 false false end) ps va) in
+      1 :: nm :: bN ctor :: bN dtor :: (match rt with Some _ => 1 | None => 0 end) :: nlen x :: x ++
+        bN (q_const q) :: bN (q_volatile q) :: bN (q_override q) :: bN (q_final q) :: q_ref q ::
+        enc_opt_tks (q_throw q) ++ enc_opt_tks (q_noexcept q) ++ [bN (q_pure q); bN (q_deleted q); bN (q_default q); bN (q_body q)]
+  end.
+Definition run_member_stmt (args : list N) : list N :=
+  match args with
+  | n :: cls :: dcls :: r =>
+      let toks := dec_tks r in
+      match member_stmt (N.to_nat n) (4 * length toks + 8) cls dcls toks with
+      | DOk (m, l, rest) => 0 :: nlen rest :: nlen l :: enc_mods m ++ flat_map enc_mentry l
+      | DErr e => [1; e]
+      end
+  | _ => [1; 0]
+  end.
+
 Definition run_case (cmd : N) (args : list N) : list N :=
   match cmd, args with
+  | 108, _ => run_member_stmt args
   | 107, _ => run_requires args
   | 106, _ => run_decl_stmt args
   | 105, _ => run_concept args
